@@ -141,13 +141,16 @@ AddBad(hdr, ops, j) ==
          ELSE IF Len(o.ends) = 1 THEN "single-target-branch"
          ELSE ""
     [] OTHER -> ""
+CtrlConnSet(ops, I) == {<<ops[j].a, ops[j].b>> : j \in {y \in EdgeIdx(ops, I) : HasCtrl(ops[y])}}
+                       \cup UNION {{<<ops[j].a, e>> : e \in Range(ops[j].ends)} : j \in BrIdx(ops, I)}
 \* J = the Add* calls that make up the construction which call jc compiles
 CompileBad(hdr, ops, jc, J) ==
   LET o == ops[jc]  C == ConnSet(ops, J) IN
   IF hdr.fe = "chain" THEN      \* a chain connects what is appended by itself: START -> first -> ... -> last -> END
        (IF DeclIdx(ops, J) = {} THEN "no-entry" ELSE IF o.m = "all" THEN "invalid-option-combination" ELSE "")
-  ELSE IF ~\E c \in C : c[1] = START THEN "no-entry"
-  ELSE IF ~\E c \in C : c[2] = END THEN "no-exit"
+  \* entry / exit = a CONTROL connection from START / into END (a Workflow's data-only input is no entry or exit edge)
+  ELSE IF ~\E c \in CtrlConnSet(ops, J) : c[1] = START THEN "no-entry"
+  ELSE IF ~\E c \in CtrlConnSet(ops, J) : c[2] = END THEN "no-exit"
   ELSE IF Untypable(ops, J) # {} THEN "untyped-passthrough"
   ELSE IF o.m = "all" /\ Cyclic(ops, J) THEN "cycle-in-all-predecessor-mode"
   ELSE IF o.m = "all" /\ o.x = "maxsteps" THEN "invalid-option-combination"
@@ -258,6 +261,12 @@ OutcomeWhy(hdr, ops, outs) ==
           /\ \E j \in (jc + 1)..n : /\ ops[j].op = "compile" /\ ops[j].m = ops[jc].m /\ ops[j].x = ops[jc].x /\ outs[j] # "ok"
                                      /\ \A i \in (jc + 1)..(j - 1) : IsAdd(ops[i]) \/ ops[i].op = "compile"
        THEN "recompile-after-refused-calls-differs"
+  \* "the same construction sequence gives the same outcome": a construction that Compile refused stays refused when Compile is
+  \* simply called again (same options, nothing declared in between) -- every front end
+  ELSE IF C20On /\ \E j1 \in 1..n : \E j2 \in (j1 + 1)..n :
+            /\ ops[j1].op = "compile" /\ ops[j2].op = "compile" /\ ops[j1].m = ops[j2].m /\ ops[j1].x = ops[j2].x
+            /\ Failed(outs[j1]) /\ outs[j2] = "ok" /\ \A i \in (j1 + 1)..(j2 - 1) : ops[i].op = "compile"
+       THEN "refused-construction-accepted-on-retry"
   ELSE IF C07On /\ jc # 0 /\ ConcreteMismatch(hdr, ops, Accepted(ops, outs, jc)) THEN "accepted-concrete-mismatch"
   ELSE ""
 \* detail for the reason above (which reference predicate fired)
